@@ -396,9 +396,10 @@ class SymWorld:
         """kill -9 and start again on the same files: connections gone, registries empty"""
         self.script.append(("restart", self.phase))
         self.conns = []
-        for st in (self.db, self.usage):
-            if st is not None and (st.dirty or st.in_tx):
-                st.rollback()
+        # the new process has new connection objects; uncommitted work of the old one is gone
+        self.db = self.db.reopen()
+        if self.usage is not None:
+            self.usage = self.usage.reopen()
         # the new process reads the clock once at start-up (`rebooted`): its own draw sequence, so that
         # the runs of a product stay aligned on the clock readings of the commands
         ph, self.phase = self.phase, "restart"
